@@ -70,6 +70,31 @@ class ListSubclass(list):
     pass
 
 
+class RaisingEq:
+    """Equality written for its own kind only (`self.key == other.key`): comparing it with anything else raises."""
+    key = 1
+
+    def __eq__(self, other):
+        return self.key == other.key
+
+    def __ne__(self, other):
+        return self.key != other.key
+
+    __hash__ = object.__hash__
+
+
+class Unhashable:
+    def __eq__(self, other):
+        return self is other
+
+    __hash__ = None
+
+
+class RaisingBool:
+    def __bool__(self):
+        raise ValueError('the truth value is ambiguous')
+
+
 def _gen():
     yield 'first'
     yield 'second'
@@ -100,6 +125,8 @@ def catalogue():
         ('huge_int', lambda: 10 ** 5000), ('lock', lambda: threading.Lock()), ('frozenset', lambda: frozenset([1])),
         ('set_mixed', lambda: {1, 'a'}), ('exception_with_hostile_args', lambda: ValueError(RaisingStr(), b'x')),
         ('base_exception', lambda: KeyboardInterrupt('stop')), ('frame', lambda: sys._getframe()),
+        ('raising_eq', lambda: RaisingEq()), ('unhashable', lambda: Unhashable()),
+        ('raising_bool', lambda: RaisingBool()),
         ('code', lambda: catalogue.__code__), ('weird_str_subclass', lambda: type('S', (str,), {})('abc')),
     ]
     return items
@@ -183,8 +210,15 @@ def catalogue_leg(c, wd, ntp):
                             break
                         if place == 'watch':
                             w0 = [w for w in s.watches if w.expression == 'H[0]']
-                            if len(w0) != 1 or (w0[0].error is None and w0[0].result.vid not in s.var_lookup):
+                            # the expression itself evaluates fine (it names the value): the result is a collected value
+                            # (placeholder text at worst), never an error result
+                            if len(w0) != 1 or w0[0].error is not None or w0[0].result is None \
+                                    or w0[0].result.vid not in s.var_lookup:
                                 bad = 'watch on the offending value: %s' % (w0[0].__dict__ if w0 else None)
+                                break
+                            if s.var_lookup[w0[0].result.vid].type != type(value).__name__:
+                                bad = 'watch on the offending value shows type %r, real %r' % (
+                                    s.var_lookup[w0[0].result.vid].type, type(value).__name__)
                                 break
                         msg = convert_snapshot(s)
                         if msg is None:
